@@ -301,7 +301,8 @@ def clearkey_requests(_):
 
 def manifest_protection(item):
     """ContentProtection elements of a manifest vs the DRM selection and vs the init segment of the same request."""
-    template, mode, drm, sel = item
+    template, mode, drm, sel = item[:4]
+    stream = item[4] if len(item) > 4 else 'bbb'
     w = W.World.shared()
     w.begin_item()
     acc = core.Acc()
@@ -309,12 +310,12 @@ def manifest_protection(item):
     q = {'drm': drm}
     if mode == 'live':
         q['depth'] = '30'
-    url = crawl.manifest_url(mode, 'bbb', template, q)
+    url = crawl.manifest_url(mode, stream, template, q)
     r = w.get(url)
     acc.count('evaluations')
     acc.count('transitions')
     acc.outcome(('manifest', r.status))
-    rec = {'kind': 'manifest', 'template': template, 'mode': mode, 'drm': drm,
+    rec = {'kind': 'manifest', 'template': template, 'mode': mode, 'drm': drm, 'stream': stream,
            'sel': {k: sorted(v) for k, v in sel.items()}}
     if r.status != 200:
         return acc
@@ -323,8 +324,8 @@ def manifest_protection(item):
     except Exception:
         return acc
     acc.count('traces')
-    acc.state((template, mode, drm))
-    st = crawl.Stored.fixture('bbb')
+    acc.state((template, mode, drm, stream))
+    st = crawl.Stored.fixture(stream)
 
     def bad(clause, text):
         acc.violation(sig('manifest', clause), f'{url}: {text}', rec)
@@ -340,6 +341,7 @@ def manifest_protection(item):
                 bad('clear-track-protected', f'{rep.id} is clear but carries ContentProtection')
             continue
         acc.nontriv((template, mode, drm, rep.id))
+        kids = c10.track_kids(stream, rep.id)
         schemes = {}
         for cp in cps:
             schemes.setdefault((cp.get('schemeIdUri') or '').lower(), []).append(cp)
@@ -399,6 +401,10 @@ def manifest_protection(item):
                         pp = bmff.pssh(box)
                         if pp['system_id'] != sid:
                             bad(f'pssh-system|{sysname}', f'{rep.id}: embedded pssh has SystemID {pp["system_id"].hex()}')
+                        if pp['version'] >= 1 and sorted(pp['kids']) != sorted(kids):
+                            bad(f'pssh-kids|{sysname}|' + ('multi-key' if len(kids) > 1 else 'single-key'),
+                                f'{rep.id}: embedded pssh lists {[k.hex() for k in pp["kids"]]}, the track\'s key ids are '
+                                f'{[k.hex() for k in kids]}')
                         if sid in init_pssh and init_pssh[sid][0] != raw:
                             bad(f'pssh-differs-from-init|{sysname}', f'{rep.id}: cenc:pssh differs from the pssh the init '
                                 f'segment of the same request carries')
@@ -411,6 +417,9 @@ def manifest_protection(item):
                         xml = [v for t, v in recs if t == 1][0].decode('utf-16-le')
                         if uuid.UUID(bytes=init.kid).bytes_le not in c10.wrm_kids(xml):
                             bad('pro-kid', f'{rep.id}: mspr:pro does not name the track KID')
+                        elif len(kids) > 1 and sorted(c10.wrm_kids(xml)) != sorted(uuid.UUID(bytes=k).bytes_le for k in kids):
+                            bad('pro-kid|multi-key', f'{rep.id}: mspr:pro names {[k.hex() for k in c10.wrm_kids(xml)]}, the '
+                                f'track\'s key ids (GUID order) are {[uuid.UUID(bytes=k).bytes_le.hex() for k in kids]}')
                         if sid in init_pssh and init_pssh[sid][1]['data'] != rawpro:
                             bad('pro-differs-from-init', f'{rep.id}: mspr:pro differs from the PRO inside the init '
                                 f'segment pssh of the same request')
@@ -526,6 +535,12 @@ def run(ctx):
             if ctx.quick and template not in ('hand_made', 'manifest_e') and len(sel) > 1 and drm != 'all':
                 continue
             items.append(('manifest', (template, mode, drm, sel)))
+    # a track with two key ids (synmk_v1_enc)
+    for template, mode in (('hand_made', 'live'), ('hand_made', 'vod'), ('manifest_e', 'live')):
+        for drm, sel in use:
+            if not drm or drm == 'none' or (ctx.quick and len(sel) > 1 and drm != 'all'):
+                continue
+            items.append(('manifest', (template, mode, drm, sel, 'synmk')))
     for v in STORED_LA_URLS:
         for template, mode in (('hand_made', 'vod'), ('hand_made', 'live'), ('manifest_e', 'vod')):
             items.append(('stored-la', (v, template, mode)))
@@ -555,5 +570,5 @@ def replay(record):
         acc = clearkey_requests(None)
     else:
         acc = manifest_protection((record['template'], record['mode'], record['drm'],
-                                   {a: set(b) for a, b in record['sel'].items()}))
+                                   {a: set(b) for a, b in record['sel'].items()}, record.get('stream', 'bbb')))
     return [(s, v[0]['what']) for s, v in acc.viol.items()]
